@@ -1,5 +1,6 @@
 import St4sd.Lemmas.C05
 import St4sd.Lemmas.C05Multi
+import St4sd.Lemmas.C05Disk
 /-!
 # C05 — DoWhile unrolling is wired correctly for any number of iterations
 
@@ -1078,6 +1079,154 @@ theorem runM_single (d : Doc) (out : List Comp) (k : Nat) : runM [d] out (List.r
 
 end Multi
 
+/-! ### aggregate and newest-instance references resolved against what is on disk
+
+`Model/LoopDisk.lean`.  `disk` — for every instance: is the file the reference asks for there, and what does it contain —
+is universally quantified: every instance independently may have produced its output or not (never executed, shut down,
+directory cleaned), whatever the history `h` of the iterations was. -/
+
+section Disk
+
+/-- instance `j` of looped component `c` of document `d` -/
+def inst (d : Doc) (c : Comp) (j : Nat) : CId := (c.stage + d.importStage, instName j c.name)
+
+/-- **multi_loopoutput_all_or_error.**  `<c>:loopoutput` resolves to `vs` iff EVERY instance `0 … kOf h i` has its file
+and `vs` are their contents in increasing iteration order: position `j` of a resolved value is the output of iteration
+`j`, nothing is skipped and nothing is added. -/
+theorem multi_loopoutput_all_or_error (ds : List Doc) (out : List Comp) (hOut : OutsideUnlooped out)
+    (hConds : ∀ d ∈ ds, CondInLoop d) (hNodups : ∀ d ∈ ds, (loopIds d).Nodup) (hDisj : LoopsDisjoint ds) (h : List Nat)
+    (i : Nat) (d : Doc) (hi : ds[i]? = some d) (c : Comp) (hc : c ∈ d.comps) (disk : Disk) (vs : List S) :
+    loopOutputM true ds (runM ds out h).comps (pid d c) disk = .ok vs ↔
+      ((List.range (kOf h i + 1)).map fun j => (disk (inst d c j)).content?) = vs.map some := by
+  unfold loopOutputM
+  rw [multi_loopref_sorted_numerically ds out hOut hConds hNodups hDisj h i d hi c hc, resolveLoopOutput_ok_iff,
+    List.map_map]
+  rfl
+
+/-- **multi_loopoutput_length.**  A resolved `:loopoutput` value has exactly one entry per instance: `kOf h i + 1`. -/
+theorem multi_loopoutput_length (ds : List Doc) (out : List Comp) (hOut : OutsideUnlooped out)
+    (hConds : ∀ d ∈ ds, CondInLoop d) (hNodups : ∀ d ∈ ds, (loopIds d).Nodup) (hDisj : LoopsDisjoint ds) (h : List Nat)
+    (i : Nat) (d : Doc) (hi : ds[i]? = some d) (c : Comp) (hc : c ∈ d.comps) (disk : Disk) (vs : List S)
+    (hok : loopOutputM true ds (runM ds out h).comps (pid d c) disk = .ok vs) : vs.length = kOf h i + 1 := by
+  have e := (multi_loopoutput_all_or_error ds out hOut hConds hNodups hDisj h i d hi c hc disk vs).mp hok
+  have := congrArg List.length e
+  simpa using this.symm
+
+/-- **multi_loopoutput_position.**  Entry `j` of a resolved `:loopoutput` value is the contents of the file of instance
+`j` — for every `j ≤ kOf h i` (in particular `j ≥ 10`). -/
+theorem multi_loopoutput_position (ds : List Doc) (out : List Comp) (hOut : OutsideUnlooped out)
+    (hConds : ∀ d ∈ ds, CondInLoop d) (hNodups : ∀ d ∈ ds, (loopIds d).Nodup) (hDisj : LoopsDisjoint ds) (h : List Nat)
+    (i : Nat) (d : Doc) (hi : ds[i]? = some d) (c : Comp) (hc : c ∈ d.comps) (disk : Disk) (vs : List S)
+    (hok : loopOutputM true ds (runM ds out h).comps (pid d c) disk = .ok vs) (j : Nat) (hj : j ≤ kOf h i) :
+    (disk (inst d c j)).content? = vs[j]? ∧ (vs[j]?).isSome = true := by
+  have e := (multi_loopoutput_all_or_error ds out hOut hConds hNodups hDisj h i d hi c hc disk vs).mp hok
+  have hlen := multi_loopoutput_length ds out hOut hConds hNodups hDisj h i d hi c hc disk vs hok
+  have hj' : j < vs.length := by omega
+  have ej := congrArg (fun l => l[j]?) e
+  simp only [List.getElem?_map] at ej
+  rw [List.getElem?_range (by omega)] at ej
+  rw [List.getElem?_eq_getElem hj'] at ej ⊢
+  simp only [Option.map_some] at ej
+  exact ⟨Option.some.inj ej, rfl⟩
+
+/-- **multi_loopoutput_missing_is_error.**  If the file of ANY instance `j ≤ kOf h i` — the first, one in the middle, the
+last — is not there, the reference does not resolve: the error names exactly the instances without a file, in
+increasing iteration order.  It never resolves to a shorter list. -/
+theorem multi_loopoutput_missing_is_error (ds : List Doc) (out : List Comp) (hOut : OutsideUnlooped out)
+    (hConds : ∀ d ∈ ds, CondInLoop d) (hNodups : ∀ d ∈ ds, (loopIds d).Nodup) (hDisj : LoopsDisjoint ds) (h : List Nat)
+    (i : Nat) (d : Doc) (hi : ds[i]? = some d) (c : Comp) (hc : c ∈ d.comps) (disk : Disk)
+    (j : Nat) (hj : j ≤ kOf h i) (hmiss : (disk (inst d c j)).content? = none) :
+    loopOutputM true ds (runM ds out h).comps (pid d c) disk =
+      .error (((List.range (kOf h i + 1)).filter fun j => missing disk (inst d c j)).map (inst d c)) := by
+  unfold loopOutputM
+  rw [multi_loopref_sorted_numerically ds out hOut hConds hNodups hDisj h i d hi c hc]
+  have hmem : inst d c j ∈ ((List.range (kOf h i + 1)).map fun j => ((c.stage + d.importStage, instName j c.name) : CId)).filter
+      (missing disk) := by
+    refine List.mem_filter.mpr ⟨List.mem_map.mpr ⟨j, List.mem_range.mpr (by omega), rfl⟩, ?_⟩
+    simp [missing, hmiss]
+  rcases resolveLoopOutput_ok_or_error disk
+      ((List.range (kOf h i + 1)).map fun j => ((c.stage + d.importStage, instName j c.name) : CId)) with
+    ⟨_, _, hnil⟩ | ⟨herr, _⟩
+  · rw [hnil] at hmem; cases hmem
+  · rw [herr, List.filter_map]
+    rfl
+
+/-- **multi_stage_loopref.**  Staging a `:loopref` reference succeeds iff the path of EVERY instance `0 … kOf h i` exists,
+and then yields those paths in increasing iteration order. -/
+theorem multi_stage_loopref (ds : List Doc) (out : List Comp) (hOut : OutsideUnlooped out)
+    (hConds : ∀ d ∈ ds, CondInLoop d) (hNodups : ∀ d ∈ ds, (loopIds d).Nodup) (hDisj : LoopsDisjoint ds) (h : List Nat)
+    (i : Nat) (d : Doc) (hi : ds[i]? = some d) (c : Comp) (hc : c ∈ d.comps) (ex : CId → Bool) (r : List CId) :
+    stageLoopRefM true ds (runM ds out h).comps (pid d c) ex = .ok r ↔
+      r = (List.range (kOf h i + 1)).map (inst d c) ∧ ∀ j, j ≤ kOf h i → ex (inst d c j) = true := by
+  unfold stageLoopRefM
+  rw [multi_loopref_sorted_numerically ds out hOut hConds hNodups hDisj h i d hi c hc, stageLoopRef_ok_iff]
+  constructor
+  · rintro ⟨e, hall⟩
+    refine ⟨e, fun j hj => hall _ (List.mem_map.mpr ⟨j, List.mem_range.mpr (by omega), rfl⟩)⟩
+  · rintro ⟨e, hall⟩
+    refine ⟨e, fun x hx => ?_⟩
+    obtain ⟨j, hj, rfl⟩ := List.mem_map.mp hx
+    exact hall j (by have := List.mem_range.mp hj; omega)
+
+/-- **multi_output_latest_or_error.**  `<c>:output` from outside the loop resolves to `v` iff the file of the
+numerically highest instance `kOf h i` is there with contents `v`; if it is not there the reference fails naming that
+instance — it never falls back to the output of an older iteration. -/
+theorem multi_output_latest_or_error (ds : List Doc) (out : List Comp) (hOut : OutsideUnlooped out)
+    (hConds : ∀ d ∈ ds, CondInLoop d) (hNodups : ∀ d ∈ ds, (loopIds d).Nodup) (hDisj : LoopsDisjoint ds) (h : List Nat)
+    (i : Nat) (d : Doc) (hi : ds[i]? = some d) (c : Comp) (hc : c ∈ d.comps) (disk : Disk) :
+    resolveOutputM true ds (runM ds out h).comps (pid d c) disk =
+      match (disk (inst d c (kOf h i))).content? with
+      | some v => .ok v
+      | none => .error (some (inst d c (kOf h i))) := by
+  unfold resolveOutputM
+  rw [multi_latest_is_numeric_max ds out hOut hConds hNodups hDisj h i d hi c hc]
+  rfl
+
+/-- **arg_loopoutput_never_partial.**  What `resolveArguments` puts on a command line for a `:loopoutput` reference is
+the complete list (one value per instance, in order) or — when files are missing — nothing at all (`blank`: exactly one
+missing; `inconsistent`: more than one): never a shorter list. -/
+theorem arg_loopoutput_never_partial (disk : Disk) (l : List CId) :
+    (∃ vs, argLoopOutput disk l = .full vs ∧ (l.map fun x => (disk x).content?) = vs.map some) ∨
+    (argLoopOutput disk l = .blank ∧ (l.filter (missing disk)).length = 1) ∨
+    (argLoopOutput disk l = .inconsistent ∧ 2 ≤ (l.filter (missing disk)).length) := by
+  unfold argLoopOutput
+  rcases resolveLoopOutput_ok_or_error disk l with ⟨vs, hok, _⟩ | ⟨herr, hne⟩
+  · rw [hok]
+    exact Or.inl ⟨vs, rfl, (resolveLoopOutput_ok_iff disk l vs).mp hok⟩
+  · rw [herr]
+    match hf : l.filter (missing disk), hne with
+    | [], hne => exact absurd rfl hne
+    | [a], _ => exact Or.inr (Or.inl ⟨rfl, rfl⟩)
+    | a :: b :: t, _ => exact Or.inr (Or.inr ⟨rfl, by simp⟩)
+
+/-- **multi_arg_loopoutput.**  The command-line value of `<c>:loopoutput` after history `h`: `full vs` iff all files of
+the instances `0 … kOf h i` are there and `vs` are their contents in iteration order. -/
+theorem multi_arg_loopoutput (ds : List Doc) (out : List Comp) (hOut : OutsideUnlooped out)
+    (hConds : ∀ d ∈ ds, CondInLoop d) (hNodups : ∀ d ∈ ds, (loopIds d).Nodup) (hDisj : LoopsDisjoint ds) (h : List Nat)
+    (i : Nat) (d : Doc) (hi : ds[i]? = some d) (c : Comp) (hc : c ∈ d.comps) (disk : Disk) (vs : List S) :
+    argLoopOutputM true ds (runM ds out h).comps (pid d c) disk = .full vs ↔
+      ((List.range (kOf h i + 1)).map fun j => (disk (inst d c j)).content?) = vs.map some := by
+  rw [← multi_loopoutput_all_or_error ds out hOut hConds hNodups hDisj h i d hi c hc disk vs]
+  unfold argLoopOutputM loopOutputM argLoopOutput
+  generalize resolveLoopOutput disk _ = r
+  match r with
+  | .ok ws => simp
+  | .error [] => simp
+  | .error [_] => simp
+  | .error (_ :: _ :: _) => simp
+
+/-- **multi_arg_output_latest.**  The command-line value of `<c>:output` is the contents of the file of instance
+`kOf h i`, or empty when that file is not there — never the output of an older iteration. -/
+theorem multi_arg_output_latest (ds : List Doc) (out : List Comp) (hOut : OutsideUnlooped out)
+    (hConds : ∀ d ∈ ds, CondInLoop d) (hNodups : ∀ d ∈ ds, (loopIds d).Nodup) (hDisj : LoopsDisjoint ds) (h : List Nat)
+    (i : Nat) (d : Doc) (hi : ds[i]? = some d) (c : Comp) (hc : c ∈ d.comps) (disk : Disk) :
+    argOutputM true ds (runM ds out h).comps (pid d c) disk = ((disk (inst d c (kOf h i))).content?).getD [] := by
+  unfold argOutputM
+  rw [multi_output_latest_or_error ds out hOut hConds hNodups hDisj h i d hi c hc disk]
+  cases (disk (inst d c (kOf h i))).content? <;> rfl
+
+end Disk
+
 /-! ### the hypotheses are satisfiable; the statements are not vacuous -/
 
 section Examples
@@ -1144,6 +1293,25 @@ example :
 example : (runM [exDocAgg] exOut [0, 0]).edges.all (fun e => e.1 != e.2) = true := by decide
 example : ctlPredecessors [exDoc, exDoc2] (runM [exDoc, exDoc2] exOut [1, 0]).comps (1, "x".toList)
     = [(1, instName 0 "x".toList), (1, instName 1 "x".toList), (1, instName 1 "stop".toList)] := by decide
+
+/-- three instances of `x`; the file of iteration 1 is missing (the first and the last are there) -/
+def exDisk : Disk := fun x =>
+  if x == (1, instName 0 "x".toList) then .value "a".toList
+  else if x == (1, instName 2 "x".toList) then .value "c".toList
+  else if x == (1, instName 1 "x".toList) then .noFile else .noDir
+
+/-- … `x:loopoutput` does not resolve (it names instance 1), its command-line value is blank, `x:output` is the output
+of instance 2 -/
+example : (match loopOutputM true [exDoc] (runM [exDoc] exOut [0, 0]).comps (1, "x".toList) exDisk with
+    | .error nf => nf == [(1, instName 1 "x".toList)]
+    | .ok _ => false) = true := by decide
+example : argLoopOutputM true [exDoc] (runM [exDoc] exOut [0, 0]).comps (1, "x".toList) exDisk = .blank := by decide
+example : argOutputM true [exDoc] (runM [exDoc] exOut [0, 0]).comps (1, "x".toList) exDisk = "c".toList := by decide
+/-- with all three files there it resolves to the three values in iteration order -/
+example : (match loopOutputM true [exDoc] (runM [exDoc] exOut [0, 0]).comps (1, "x".toList)
+      (fun x => .value x.2) with
+    | .ok vs => vs == [instName 0 "x".toList, instName 1 "x".toList, instName 2 "x".toList]
+    | .error _ => false) = true := by decide
 
 end Examples
 
